@@ -907,6 +907,14 @@ class DispatchWorld:
         def prop_of(i):
             return 'C04' if i in ctx_ops else 'C03'
         from ..kernel import tolerated
+        if mh.engine.m.nested_in_trigger:
+            d = (f"{mh.engine.m.nested_in_trigger} assignment(s) to a watched parameter made by a callback while param.trigger was dispatching on "
+                 f"the same object: they count as triggered themselves (changes-only watchers are called for an unchanged value, the event "
+                 f"type is 'triggered')")
+            if 'C03.assignment_in_trigger_callback_counts_as_triggered' in tolerated('C03'):
+                out.known.append(('C03.assignment_in_trigger_callback_counts_as_triggered', d))
+            else:
+                out.violations.append(('C03.assignment_in_trigger_callback_counts_as_triggered', None, d))
         diff = compare(mtrace, rtrace, prop_of, tolerated('C04'), out.known)
         for e in rtrace:
             out.log.append(repr(e))
